@@ -27,7 +27,7 @@ func init() {
 		},
 		Batches:  func(t string) int { return 16 },
 		Parallel: 12,
-		Rule: "one case = one run of 4 real validators over a lossy/reordering network in which 1-3 crash points are injected into correct validators: crash point = (k-th WAL operation after reaching a height, over round/lock/commit WALs) x mode (before the op / torn inside Sync with a byte prefix of the unsynced tail surviving / after the op, before what follows it e.g. the broadcast); each WAL file keeps its synced bytes plus a chosen prefix of its unsynced tail (0, 1..7 header bytes, exactly 8, mid-payload, all); the validator restarts from the crash image with the same key and block DB and the run continues. Quick: PRNG-sampled points; thorough: systematic sweep of op index 0..15 x 3 modes x 9 tear sizes. Monitor: (a) dictionary over every signed vote/proposal seen on the wire across all incarnations: same (validator, height, round, type) with different signed bytes = violation; (b) at send time each own vote/proposal must be covered by a completed Sync of the round WAL; (c) after every restart's recovery, every own vote/proposal the validator had put on the wire in the height it restarts in must still be readable from its round WAL. Tears include a zero-filled record tail (full-length record with wrong checksum). Non-trivial = crash hit a validator that had already signed in that height and the restarted incarnation put a new signed message on the wire in the same height; distinct by (op, mode, tear class, wal).",
+		Rule: "one case = one run of 4 real validators over a lossy/reordering network in which 1-3 crash points are injected into correct validators: crash point = (k-th WAL operation after reaching a height, over round/lock/commit WALs) x mode (before the op / torn inside Sync with a byte prefix of the unsynced tail surviving / after the op, before what follows it e.g. the broadcast); each WAL file keeps its synced bytes plus a chosen prefix of its unsynced tail (0, 1..7 header bytes, exactly 8, mid-payload, all); the validator restarts from the crash image with the same key and block DB and the run continues. Quick: PRNG-sampled points, a quarter directed (forced second round, a third validator cut off, the victim dies right after handing an own vote/proposal of round >=1 to the network), a quarter without crash but with block-import completion callbacks delayed by 2.5 s (p=0.6) at heights whose round-0 proposals are lost; thorough: systematic sweep of op index 0..15 x 3 modes x 9 tear sizes followed by 144 plans of the quick classes. Monitor: (a) dictionary over every signed vote/proposal seen on the wire across all incarnations: same (validator, height, round, type) with different signed bytes = violation; (b) at send time each own vote/proposal must be covered by a completed Sync of the round WAL; (c) after every restart's recovery, every own vote/proposal the validator had put on the wire in the height it restarts in must still be readable from its round WAL. Tears include a zero-filled record tail (full-length record with wrong checksum). Non-trivial = crash hit a validator that had already signed in that height and the restarted incarnation put a new signed message on the wire in the same height; distinct by (op, mode, tear class, wal).",
 		MinNonTrivial: func(t string) int {
 			if t == ev.Thorough {
 				return 100
@@ -44,8 +44,8 @@ func init() {
 func makePlan(i int, r *rand.Rand, thorough bool) csnet.Options {
 	plan := &csnet.Plan{Target: 4, DropP: 0.05, DelayP: 0.3, MaxDelayMs: 60, DupP: 0.05, FaultUntil: 3}
 	opt := csnet.Options{N: 4, Plan: plan, TimeoutPropose: 600 * time.Millisecond}
-	if thorough {
-		// systematic: op index x mode x tear
+	if thorough && i < 16*len(modes)*len(tearBytes) {
+		// systematic: op index x mode x tear (the remaining thorough cases are the quick classes)
 		k := i
 		op := k % 16
 		k /= 16
